@@ -76,7 +76,7 @@ def scenario(ch, cfg):
                 stats["probe_true_return_other_than_1"] += 1
             if ch.chance(1, 10, "earlystop"):
                 ret = 0
-            act = ch.weighted([10, 2, 2 if ntimers > 1 else 0, 1], "act")   # none, cancel self, cancel other, raise
+            act = ch.weighted([10, 2, 2 if ntimers > 1 else 0, 1, 1], "act")   # none, cancel self, cancel other, raise, cancel self twice
             script.append({"dur": [0.0, 0.3, 1.0, 2.5][dur] * (interval or 1), "ret": ret, "act": act})
         timers.append({"id": t, "interval": interval, "script": script, "ticks": [], "arms": [], "timerc": [],
                        "start": None, "handle": None, "stopped_at": None, "raised_at": None, "version": 1})
@@ -154,7 +154,8 @@ def scenario(ch, cfg):
         other = (tid + 1) % ntimers
         # a::tick(..) returns the scripted action: 1 cancel self, 2 cancel other, 3 raise
         return (f'cb{tid}::{{[a];a::tick({tid};{version});'
-                f':[a=1;rc({tid};"self";.timerc(th{tid}));:[a=2;rc({other};"other";.timerc(th{other}));:[a=3;{{raised({tid});boom()}}();0]]];'
+                f':[a=1;rc({tid};"self";.timerc(th{tid}));:[a=2;rc({other};"other";.timerc(th{other}));:[a=3;{{raised({tid});boom()}}();'
+                f':[a=4;{{rc({tid};"self";.timerc(th{tid}));rc({tid};"self";.timerc(th{tid}))}}();0]]]];'
                 f'ret({tid})}}')
 
     # ----- external events (cancel / redefine) at drawn virtual times
@@ -193,9 +194,35 @@ def scenario(ch, cfg):
             klong(cb_source(tid, T["version"]))
             log.append(f"redefine cb{tid} v{T['version']} t={w.now!r}")
 
+    alias_history = ch.draw(4, "alias_history") == 0
+    forget = ch.draw(4, "fire_and_forget") == 0
+    ff = {"ticks": [], "start": None}
+
+    def ffrec(x):
+        ff["ticks"].append(w.now)
+        return 1 if len(ff["ticks"]) < 3 else 0
+    klong["ffrec"] = ffrec
+
     def boot():
         for T in timers:
+            if alias_history and T["id"] == 0:
+                # the callback's function object has a past: it was first known as pre0 and served a timer that is gone;
+                # then it got its present name and pre0 was given to something else.  The timer below is created on
+                # cb0 and must follow cb0 - now and after redefinitions
+                stats["probe_callback_function_known_under_another_name_before"] += 1
+                klong(cb_source(0, 1).replace("cb0::", "pre0::", 1))
+                klong('thx::.timer("gone";1;pre0)')
+                klong(".timerc(thx)")
+                klong("cb0::pre0")
+                klong(cb_source(0, -1).replace("cb0::", "pre0::", 1))
+                continue
             klong(cb_source(T["id"], 1))
+        if forget:
+            # a timer nobody keeps a handle of (.timer("flush";300;flush) as a statement): it ticks all the same
+            stats["probe_timer_whose_handle_is_not_kept"] += 1
+            klong("cbff::{ffrec(0)}")
+            ff["start"] = w.now
+            klong('.timer("ff";1;cbff);0')
         for T in timers:
             T["start"] = w.now
             klong(f'th{T["id"]}::.timer("t{T["id"]}";{T["interval"]};cb{T["id"]})')
@@ -245,6 +272,9 @@ def scenario(ch, cfg):
         w.shutdown()
         raise HarnessError(f"unexpected exception on the loop: {loop_errors[:2]}")
     # ----- oracle
+    if forget and len(ff["ticks"]) != 3:
+        violations.append({"sig": "C15:timer-without-kept-handle-does-not-tick", "msg": f'.timer("ff";1;cbff) as a statement (handle not kept), callback true '
+                           f"twice then false: expected 3 invocations, saw {len(ff['ticks'])} at {ff['ticks']} (created at {ff['start']!r}, run ended {w.now!r})"})
     for T in timers:
         tid, i, start = T["id"], T["interval"], T["start"]
         if start is None:
@@ -336,7 +366,7 @@ def scenario(ch, cfg):
         violations.append({"sig": "C15:does-not-settle", "msg": f"run still busy after {w.steps} steps at t={w.now!r}: {log[-4:]}"})
     nontrivial = bool(stats.get("probe_dispatch_exact") or stats.get("probe_dispatch_early") or any(T["timerc"] for T in timers)
                       or stats.get("probe_redefine"))
-    sample = {"start": t0, "timers": [{"interval": T["interval"], "script": [(s["dur"], s["ret"], ["none", "cancel-self", "cancel-other", "raise"][s["act"]])
+    sample = {"start": t0, "timers": [{"interval": T["interval"], "script": [(s["dur"], s["ret"], ["none", "cancel-self", "cancel-other", "raise", "cancel-self-twice"][s["act"]])
                                                                              for s in T["script"]]} for T in timers],
               "externals": [(k, tid, at) for k, tid, at in externals], "log": log[:40], "end": reason}
     out = {"violations": violations, "stats": dict(stats), "digest": w.digest(), "sched": w.sched_digest(),
